@@ -15,7 +15,8 @@ vars == <<l, st, rej>>
 
 NoRun == [id |-> "", f |-> <<>>, tmax |-> 0, seen |-> <<>>]
 
-Key(e) == <<e.mode, e.order, e.hasT, e.topics, e.hasS, e.s, e.hasE, e.e, e.form>>
+IsStream(e) == "stream" \in DOMAIN e /\ e.stream       \* the Reader was built over a source that cannot seek
+Key(e) == <<e.mode, e.order, e.hasT, e.topics, e.hasS, e.s, e.hasE, e.e, e.form, IsStream(e)>>
 Filtered(e) == e.hasT \/ e.hasS \/ e.hasE
 Ordered(e)  == e.order \in {"log", "rlog"}
 LegalWindow(e) == ~(e.hasS /\ e.hasE) \/ e.s <= e.e
@@ -57,6 +58,7 @@ JudgeRead(s, e) ==
   ELSE IF moved /\ scanlike /\ Ended(e) = "error" THEN {P \o "/Session/StreamNotRewound"}
   ELSE IF Ended(e) \in {"error", "openerror"} THEN
        (IF indexed /\ ~Indexable(f) /\ (Ordered(e) \/ Ended(e) = "error") THEN {}       \* C02: falling back or failing is allowed when the summary lacks the index
+        ELSE IF indexed /\ IsStream(e) THEN {}                                            \* ... or when the source cannot seek: the index is out of reach
         ELSE {P \o "/UnexpectedError"})
   (* a returned triple that is not a message of the file, or whose fields / channel / schema differ: index-based access
      no longer finds what the scan finds (C02), whatever the order or filter *)
